@@ -37,186 +37,195 @@ def run(chk):
         'write_tag_pair for all 15 tags and values over the property\'s alphabet are read back verbatim by parse_board (folded).')
     from .pbnfile import writer_rule
     writer_rule(chk, 'C18.R6')
-    S = Summarizer(repo, 'C18')
-    wm = repo.cls('PbnWriter', 'C18').module
-    w_wbr, q_wbr = loc(repo, 'PbnWriter', 'write_board_result', 'C18.R1')
-    paths = [p for p in S.paths('PbnWriter', 'write_board_result', dyn='PbnWriter') if p.end[0] != 'raise']
-    chk.floor('C18.R1', 'non-raising paths of write_board_result', len(paths), 1)
-    f = Folder(repo, allow_loops=True, max_steps=200000)
-    pat, func, sep_call, sep_if, ps_fn, pci = separator_pattern(repo, 'C18.R2')
-    from .pbnio import check_line_source
-    check_line_source(chk, 'C18.R3', repo)
-    fm = re.fullmatch if func == 're.fullmatch' else re.match
-    tag_values = {}
-    for p in paths:
-        lines = [e for e in p.events if e.kind == 'call' and e.method == 'write_line' and e.recv == 'self']
-        tags = []
-        tail = []
-        for e in lines:
-            a = e.args[0] if e.args else None
-            m = None
-            if isinstance(a, ast.JoinedStr):
-                # template  [ {tag} "{content}" ]
-                parts = a.values
-                lit = ''.join(v.value if isinstance(v, ast.Constant) else '\0' for v in parts)
-                holes = [v.value for v in parts if isinstance(v, ast.FormattedValue)]
-                if lit == '[\0 "\0"]' and len(holes) == 2 and isinstance(holes[0], ast.Constant):
-                    m = (holes[0].value, holes[1])
-            if m is not None and not tail:
-                tags.append(m[0])
-                tag_values.setdefault(m[0], set()).add(ast.unparse(m[1]))
-            else:
-                tail.append(e)
-        chk.require(tags == MANDATORY, 'C18.R1', w_wbr, q_wbr, f'tags written: {tags}',
-                    'the 15 mandatory tags are written in PBN order', f'tags written are {tags}; PBN requires {MANDATORY}')
-        # R2 separator
-        sep_ok = False
-        sep_txt = None
-        for e in tail:
-            pe = PartialEvaluator(f, wm, [])
-            v = pe.eval(e.args[0]) if e.args else NOVALUE
-            if isinstance(v, str):
-                sep_txt = v if v.endswith('\n') else v + '\n'
-                if fm(pat, sep_txt) is not None:
-                    sep_ok = True
-        chk.require(sep_ok, 'C18.R2', repo.where(wm, tail[0].node) if tail else w_wbr, q_wbr,
-                    f'after the Result tag the writer emits {sep_txt!r}; reader separates games on {pat!r}',
-                    'each board result ends with a line the reader recognises as a game separator',
-                    f'after the last tag the writer emits {repr(sep_txt) if sep_txt is not None else "nothing"}: the reader (separator pattern {pat!r}) '
-                    f'reads consecutive board results as ONE game and loses every board after the first')
+    def structural():
+        S = Summarizer(repo, 'C18')
+        wm = repo.cls('PbnWriter', 'C18').module
+        w_wbr, q_wbr = loc(repo, 'PbnWriter', 'write_board_result', 'C18.R1')
+        paths = [p for p in S.paths('PbnWriter', 'write_board_result', dyn='PbnWriter') if p.end[0] != 'raise']
+        chk.floor('C18.R1', 'non-raising paths of write_board_result', len(paths), 1)
+        f = Folder(repo, allow_loops=True, max_steps=200000)
+        pat, func, sep_call, sep_if, ps_fn, pci = separator_pattern(repo, 'C18.R2')
+        from .pbnio import check_line_source
+        check_line_source(chk, 'C18.R3', repo)
+        fm = re.fullmatch if func == 're.fullmatch' else re.match
+        tag_values = {}
+        for p in paths:
+            lines = [e for e in p.events if e.kind == 'call' and e.method == 'write_line' and e.recv == 'self']
+            tags = []
+            tail = []
+            for e in lines:
+                a = e.args[0] if e.args else None
+                m = None
+                if isinstance(a, ast.JoinedStr):
+                    # template  [ {tag} "{content}" ]
+                    parts = a.values
+                    lit = ''.join(v.value if isinstance(v, ast.Constant) else '\0' for v in parts)
+                    holes = [v.value for v in parts if isinstance(v, ast.FormattedValue)]
+                    if lit == '[\0 "\0"]' and len(holes) == 2 and isinstance(holes[0], ast.Constant):
+                        m = (holes[0].value, holes[1])
+                if m is not None and not tail:
+                    tags.append(m[0])
+                    tag_values.setdefault(m[0], set()).add(ast.unparse(m[1]))
+                else:
+                    tail.append(e)
+            chk.require(tags == MANDATORY, 'C18.R1', w_wbr, q_wbr, f'tags written: {tags}',
+                        'the 15 mandatory tags are written in PBN order', f'tags written are {tags}; PBN requires {MANDATORY}')
+            # R2 separator
+            sep_ok = False
+            sep_txt = None
+            for e in tail:
+                pe = PartialEvaluator(f, wm, [])
+                v = pe.eval(e.args[0]) if e.args else NOVALUE
+                if isinstance(v, str):
+                    sep_txt = v if v.endswith('\n') else v + '\n'
+                    if fm(pat, sep_txt) is not None:
+                        sep_ok = True
+            chk.require(sep_ok, 'C18.R2', repo.where(wm, tail[0].node) if tail else w_wbr, q_wbr,
+                        f'after the Result tag the writer emits {sep_txt!r}; reader separates games on {pat!r}',
+                        'each board result ends with a line the reader recognises as a game separator',
+                        f'after the last tag the writer emits {repr(sep_txt) if sep_txt is not None else "nothing"}: the reader (separator pattern {pat!r}) '
+                        f'reads consecutive board results as ONE game and loses every board after the first')
 
-    # ---- R4 provenance of the tag values (conditional arms evaluated, leaves matched by call) -------------------------
-    leaf = {'str(board_num)': 'BOARD', 'str(dealer)': 'DEALER', 'contract.vul.pbn_format()': 'VUL-PBN', 'deal.to_pbn(dealer)': 'DEAL-FROM-DEALER',
-            'scoring.value': 'SCORING', 'event': 'EVENT', 'site': 'SITE', 'west_player': 'W', 'north_player': 'N', 'east_player': 'E',
-            'south_player': 'S', "date.strftime('%Y.%m.%d')": 'DATE', 'str(contract.declarer)': 'DECLARER', 'str(contract)': 'CONTRACT',
-            'str(taken_tricks)': 'TRICKS'}
-    want = {'Board': ('BOARD', 'BOARD'), 'Dealer': ('DEALER', 'DEALER'), 'Vulnerable': ('VUL-PBN', 'VUL-PBN'),
-            'Deal': ('DEAL-FROM-DEALER', 'DEAL-FROM-DEALER'), 'Scoring': ('SCORING', 'SCORING'), 'Event': ('EVENT', 'EVENT'),
-            'Site': ('SITE', 'SITE'), 'West': ('W', 'W'), 'North': ('N', 'N'), 'East': ('E', 'E'), 'South': ('S', 'S'),
-            'Date': ('DATE', 'DATE'), 'Declarer': ('', 'DECLARER'), 'Contract': ('Pass', 'CONTRACT'), 'Result': ('', 'TRICKS')}
-    from .playing import Playing
-    n_r4 = 0
-    _, wbr_fn = repo.method('PbnWriter', 'write_board_result', 'C18.R4')
-    wbr_params = {a.arg for a in wbr_fn.args.args + wbr_fn.args.kwonlyargs} - {'self'}
-    for p in paths:
-        for passed, tricks in ((True, None), (False, 0), (False, 7), (False, 13)):
-            def m(node, passed=passed, tricks=tricks):
-                txt = ast.unparse(node)
-                if txt == 'contract.is_passed_out()':
-                    return passed
-                if txt in leaf:
-                    return leaf[txt]
-                if txt == 'taken_tricks':
-                    return tricks
-                if txt == 'taken_tricks is None':
-                    return tricks is None
-                if txt == 'taken_tricks is not None':
-                    return tricks is not None
-                # any other value computed purely from the parameters is a recognised provenance (just not the required one)
-                if isinstance(node, (ast.Call, ast.Attribute)) and not isinstance(node, ast.Constant):
-                    names = {n.id for n in ast.walk(node) if isinstance(n, ast.Name)}
-                    if names and names <= wbr_params | {'str'} and not any(isinstance(n, ast.IfExp) for n in ast.walk(node)):
-                        return f'<{txt}>'
-                return NOVALUE
-            pe = PartialEvaluator(f, wm, [m])
-            if not Playing.consistent(p, pe):
-                continue        # this path is not taken on a passed-out / played board
-            for e in [e for e in p.events if e.kind == 'call' and e.method == 'write_line' and e.recv == 'self']:
-                a0 = e.args[0] if e.args else None
-                if not (isinstance(a0, ast.JoinedStr) and len([v for v in a0.values if isinstance(v, ast.FormattedValue)]) == 2):
-                    continue
-                holes = [v.value for v in a0.values if isinstance(v, ast.FormattedValue)]
-                if not isinstance(holes[0], ast.Constant) or holes[0].value not in want:
-                    continue
-                t = holes[0].value
-                v = pe.eval(holes[1])
-                got = v if isinstance(v, str) else None
-                if got is None:
-                    raise AnalysisError('C18.R4', q_wbr, f'value of tag {t} (`{ast.unparse(holes[1])[:60]}`) cannot be traced to a parameter on a {"passed-out" if passed else "played"} board')
-                exp = want[t][0 if passed else 1]
-                n_r4 += 1
-                chk.require(got == exp, 'C18.R4', repo.where(wm, e.node), q_wbr, f'{t} <- {ast.unparse(holes[1])[:60]} [{"passed out" if passed else "played"}]',
-                            f'tag {t} carries {exp!r} on a {"passed-out" if passed else "played"} board',
-                            f'tag {t} is written as {got!r} on a {"passed-out" if passed else "played"} board; expected {exp!r} '
-                            f'- PBN spelling / passed-out convention / dealer-first deal')
-    chk.floor('C18.R4', 'tag values traced', n_r4, 60)
+        # ---- R4 provenance of the tag values (conditional arms evaluated, leaves matched by call) -------------------------
+        leaf = {'str(board_num)': 'BOARD', 'str(dealer)': 'DEALER', 'contract.vul.pbn_format()': 'VUL-PBN', 'deal.to_pbn(dealer)': 'DEAL-FROM-DEALER',
+                'scoring.value': 'SCORING', 'event': 'EVENT', 'site': 'SITE', 'west_player': 'W', 'north_player': 'N', 'east_player': 'E',
+                'south_player': 'S', "date.strftime('%Y.%m.%d')": 'DATE', 'str(contract.declarer)': 'DECLARER', 'str(contract)': 'CONTRACT',
+                'str(taken_tricks)': 'TRICKS'}
+        want = {'Board': ('BOARD', 'BOARD'), 'Dealer': ('DEALER', 'DEALER'), 'Vulnerable': ('VUL-PBN', 'VUL-PBN'),
+                'Deal': ('DEAL-FROM-DEALER', 'DEAL-FROM-DEALER'), 'Scoring': ('SCORING', 'SCORING'), 'Event': ('EVENT', 'EVENT'),
+                'Site': ('SITE', 'SITE'), 'West': ('W', 'W'), 'North': ('N', 'N'), 'East': ('E', 'E'), 'South': ('S', 'S'),
+                'Date': ('DATE', 'DATE'), 'Declarer': ('', 'DECLARER'), 'Contract': ('Pass', 'CONTRACT'), 'Result': ('', 'TRICKS')}
+        from .playing import Playing
+        n_r4 = 0
+        _, wbr_fn = repo.method('PbnWriter', 'write_board_result', 'C18.R4')
+        wbr_params = {a.arg for a in wbr_fn.args.args + wbr_fn.args.kwonlyargs} - {'self'}
+        for p in paths:
+            for passed, tricks in ((True, None), (False, 0), (False, 7), (False, 13)):
+                def m(node, passed=passed, tricks=tricks):
+                    txt = ast.unparse(node)
+                    if txt == 'contract.is_passed_out()':
+                        return passed
+                    if txt in leaf:
+                        return leaf[txt]
+                    if txt == 'taken_tricks':
+                        return tricks
+                    if txt == 'taken_tricks is None':
+                        return tricks is None
+                    if txt == 'taken_tricks is not None':
+                        return tricks is not None
+                    # any other value computed purely from the parameters is a recognised provenance (just not the required one)
+                    if isinstance(node, (ast.Call, ast.Attribute)) and not isinstance(node, ast.Constant):
+                        names = {n.id for n in ast.walk(node) if isinstance(n, ast.Name)}
+                        if names and names <= wbr_params | {'str'} and not any(isinstance(n, ast.IfExp) for n in ast.walk(node)):
+                            return f'<{txt}>'
+                    return NOVALUE
+                pe = PartialEvaluator(f, wm, [m])
+                if not Playing.consistent(p, pe):
+                    continue        # this path is not taken on a passed-out / played board
+                for e in [e for e in p.events if e.kind == 'call' and e.method == 'write_line' and e.recv == 'self']:
+                    a0 = e.args[0] if e.args else None
+                    if not (isinstance(a0, ast.JoinedStr) and len([v for v in a0.values if isinstance(v, ast.FormattedValue)]) == 2):
+                        continue
+                    holes = [v.value for v in a0.values if isinstance(v, ast.FormattedValue)]
+                    if not isinstance(holes[0], ast.Constant) or holes[0].value not in want:
+                        continue
+                    t = holes[0].value
+                    v = pe.eval(holes[1])
+                    got = v if isinstance(v, str) else None
+                    if got is None:
+                        raise AnalysisError('C18.R4', q_wbr, f'value of tag {t} (`{ast.unparse(holes[1])[:60]}`) cannot be traced to a parameter on a {"passed-out" if passed else "played"} board')
+                    exp = want[t][0 if passed else 1]
+                    n_r4 += 1
+                    chk.require(got == exp, 'C18.R4', repo.where(wm, e.node), q_wbr, f'{t} <- {ast.unparse(holes[1])[:60]} [{"passed out" if passed else "played"}]',
+                                f'tag {t} carries {exp!r} on a {"passed-out" if passed else "played"} board',
+                                f'tag {t} is written as {got!r} on a {"passed-out" if passed else "played"} board; expected {exp!r} '
+                                f'- PBN spelling / passed-out convention / dealer-first deal')
+        chk.floor('C18.R4', 'tag values traced', n_r4, 60)
 
-    # ---- R3 line length ---------------------------------------------------------------------------------------------------
-    w_wl, q_wl = loc(repo, 'PbnWriter', 'write_line', 'C18.R3')
-    _, wl = repo.method('PbnWriter', 'write_line', 'C18.R3')
-    # (that length classes suffice is not argued from the syntax: write_line is folded on OPAQUE texts - fold.OpaqueText - whose characters
-    # are unknown except for line breaks; an operation that depends on the characters leaves the abstraction -> analysis error)
-    from ..fold import OpaqueText
-    pw = repo.cls('PbnWriter')
-    maxc = None
-    for c in repo.mro(pw):
-        if 'MAX_LINE_CHARS' in c.assigns and isinstance(c.assigns['MAX_LINE_CHARS'], ast.Constant):
-            maxc = c.assigns['MAX_LINE_CHARS'].value
-    chk.require(maxc == 255, 'C18.R3', w_wl, q_wl, f'MAX_LINE_CHARS = {maxc}', 'the line limit constant is 255', f'MAX_LINE_CHARS is {maxc}, PBN allows 255')
-    first_bad = None
-    ncase = 0
-    for ln in list(range(1, 600)) + [764, 765, 766, 1019, 1020, 1021, 1100]:
-        for nl in (False, True):
-            ncase += 1
-            text = OpaqueText.of_length(ln, nl)
-            sink = Sink()
-            obj = DV(pw, {'writer': sink})
-            f.stubs['self.writer.write'] = sink.write
-            try:
-                f.call_method(obj, 'write_line', text)
-            except FoldRaise as r:
-                first_bad = first_bad or (ln, nl, f'raises {r.kind}')
-                continue
-            except Unsupported as e:
-                raise AnalysisError('C18.R3', q_wl, f'left the foldable subset: {e}')
-            out = [c if isinstance(c, OpaqueText) else OpaqueText(tuple(c)) if isinstance(c, str) else None for c in sink.chunks]
-            ok = all(c is not None and len(c) <= 255 and c.syms[-1:] == ('\n',) and c.count('\n') == 1 for c in out) and \
-                [x for c in out for x in c.syms if x != '\n'] == [x for x in text.syms if x != '\n']
+        # ---- R3 line length ---------------------------------------------------------------------------------------------------
+        w_wl, q_wl = loc(repo, 'PbnWriter', 'write_line', 'C18.R3')
+        _, wl = repo.method('PbnWriter', 'write_line', 'C18.R3')
+        # (that length classes suffice is not argued from the syntax: write_line is folded on OPAQUE texts - fold.OpaqueText - whose characters
+        # are unknown except for line breaks; an operation that depends on the characters leaves the abstraction -> analysis error)
+        from ..fold import OpaqueText
+        pw = repo.cls('PbnWriter')
+        maxc = None
+        for c in repo.mro(pw):
+            if 'MAX_LINE_CHARS' in c.assigns and isinstance(c.assigns['MAX_LINE_CHARS'], ast.Constant):
+                maxc = c.assigns['MAX_LINE_CHARS'].value
+        chk.require(maxc == 255, 'C18.R3', w_wl, q_wl, f'MAX_LINE_CHARS = {maxc}', 'the line limit constant is 255', f'MAX_LINE_CHARS is {maxc}, PBN allows 255')
+        first_bad = None
+        ncase = 0
+        for ln in list(range(1, 600)) + [764, 765, 766, 1019, 1020, 1021, 1100]:
+            for nl in (False, True):
+                ncase += 1
+                text = OpaqueText.of_length(ln, nl)
+                sink = Sink()
+                obj = DV(pw, {'writer': sink})
+                f.stubs['self.writer.write'] = sink.write
+                try:
+                    f.call_method(obj, 'write_line', text)
+                except FoldRaise as r:
+                    first_bad = first_bad or (ln, nl, f'raises {r.kind}')
+                    continue
+                except Unsupported as e:
+                    raise AnalysisError('C18.R3', q_wl, f'left the foldable subset: {e}')
+                out = [c if isinstance(c, OpaqueText) else OpaqueText(tuple(c)) if isinstance(c, str) else None for c in sink.chunks]
+                ok = all(c is not None and len(c) <= 255 and c.syms[-1:] == ('\n',) and c.count('\n') == 1 for c in out) and \
+                    [x for c in out for x in c.syms if x != '\n'] == [x for x in text.syms if x != '\n']
+                if not ok and first_bad is None:
+                    first_bad = (ln, nl, [len(c) if c is not None else '?' for c in out])
+        f.stubs.pop('self.writer.write', None)
+        chk.evals(ncase)
+        chk.require(first_bad is None, 'C18.R3', w_wl, q_wl, 'write_line on every length class',
+                    f'every chunk written is a line of at most 255 characters and the text is preserved ({ncase} length classes)',
+                    f'text of length {first_bad[0]} (trailing newline: {first_bad[1]}) is written as chunks {first_bad[2]}' if first_bad else '')
+        # the stream is written only through write_line
+        n_w = 0
+        for meth, fn in pw.methods.items():
+            for n in ast.walk(fn):
+                if isinstance(n, ast.Call) and ast.unparse(n.func) in ('self.writer.write', 'self.writer.writelines'):
+                    n_w += 1
+                    chk.require(meth == 'write_line', 'C18.R3', repo.where(wm, n), f'PbnWriter.{meth}', ast.unparse(n)[:60],
+                                'the stream is written only inside write_line', f'PbnWriter.{meth} writes to the stream directly (bypasses the 255 limit)')
+        chk.floor('C18.R3', 'stream writes in PbnWriter', n_w, 1)
+
+        # ---- R5 writer lines read back by parse_board -----------------------------------------------------------------------------
+        w_tp, q_tp = loc(repo, 'PbnWriter', 'write_tag_pair', 'C18.R5')
+        tp_paths = [p for p in S.paths('PbnWriter', 'write_tag_pair', dyn='PbnWriter') if p.end[0] != 'raise']
+        if len(tp_paths) != 1:
+            raise AnalysisError('C18.R5', q_tp, 'write_tag_pair is expected to have one non-raising path')
+        ev = [e for e in tp_paths[0].events if e.kind == 'call' and e.method == 'write_line']
+        if len(ev) != 1:
+            raise AnalysisError('C18.R5', q_tp, 'write_tag_pair does not call write_line exactly once')
+        _, tpf = repo.method('PbnWriter', 'write_tag_pair', 'C18.R5')
+        tagp, contp = tpf.args.args[1].arg, tpf.args.args[2].arg
+        first_bad = None
+        n = 0
+        samples = VALUE_ALPHABET_SAMPLES + ['N:AKQJ.T98.765.432 T98.765.432.AKQJ 765.432.AKQJ.T98 432.AKQJ.T98.765', 'Pass', '4SXX', '2020.01.31']
+        for val in samples:
+            n += 1
+            lines = []
+            for t in MANDATORY:
+                pe = PartialEvaluator(f, wm, [lambda node, t=t, val=val: (t if isinstance(node, ast.Name) and node.id == tagp else
+                                                                         (val if isinstance(node, ast.Name) and node.id == contp else NOVALUE))])
+                line = pe.eval(ev[0].args[0])
+                if not isinstance(line, str):
+                    raise AnalysisError('C18.R5', q_tp, 'tag-pair line is not a constant template of tag and content')
+                lines.append(line + '\n')
+            got = fold_parse_board(repo, 'C18.R5', lines)
+            ok = got[0] == 'ok' and got[1] == {t: val for t in MANDATORY}
             if not ok and first_bad is None:
-                first_bad = (ln, nl, [len(c) if c is not None else '?' for c in out])
-    f.stubs.pop('self.writer.write', None)
-    chk.evals(ncase)
-    chk.require(first_bad is None, 'C18.R3', w_wl, q_wl, 'write_line on every length class',
-                f'every chunk written is a line of at most 255 characters and the text is preserved ({ncase} length classes)',
-                f'text of length {first_bad[0]} (trailing newline: {first_bad[1]}) is written as chunks {first_bad[2]}' if first_bad else '')
-    # the stream is written only through write_line
-    n_w = 0
-    for meth, fn in pw.methods.items():
-        for n in ast.walk(fn):
-            if isinstance(n, ast.Call) and ast.unparse(n.func) in ('self.writer.write', 'self.writer.writelines'):
-                n_w += 1
-                chk.require(meth == 'write_line', 'C18.R3', repo.where(wm, n), f'PbnWriter.{meth}', ast.unparse(n)[:60],
-                            'the stream is written only inside write_line', f'PbnWriter.{meth} writes to the stream directly (bypasses the 255 limit)')
-    chk.floor('C18.R3', 'stream writes in PbnWriter', n_w, 1)
+                first_bad = (val, got)
+        chk.evals(n)
+        chk.require(first_bad is None, 'C18.R5', w_tp, q_tp, 'writer tag-pair lines through parse_board',
+                    f'the 15 tag-pair lines are read back verbatim for all {n} sample values over the property\'s alphabet',
+                    f'value {first_bad[0]!r}: the 15 written tag lines are read back as {first_bad[1]}' if first_bad else '')
 
-    # ---- R5 writer lines read back by parse_board -----------------------------------------------------------------------------
-    w_tp, q_tp = loc(repo, 'PbnWriter', 'write_tag_pair', 'C18.R5')
-    tp_paths = [p for p in S.paths('PbnWriter', 'write_tag_pair', dyn='PbnWriter') if p.end[0] != 'raise']
-    if len(tp_paths) != 1:
-        raise AnalysisError('C18.R5', q_tp, 'write_tag_pair is expected to have one non-raising path')
-    ev = [e for e in tp_paths[0].events if e.kind == 'call' and e.method == 'write_line']
-    if len(ev) != 1:
-        raise AnalysisError('C18.R5', q_tp, 'write_tag_pair does not call write_line exactly once')
-    _, tpf = repo.method('PbnWriter', 'write_tag_pair', 'C18.R5')
-    tagp, contp = tpf.args.args[1].arg, tpf.args.args[2].arg
-    first_bad = None
-    n = 0
-    samples = VALUE_ALPHABET_SAMPLES + ['N:AKQJ.T98.765.432 T98.765.432.AKQJ 765.432.AKQJ.T98 432.AKQJ.T98.765', 'Pass', '4SXX', '2020.01.31']
-    for val in samples:
-        n += 1
-        lines = []
-        for t in MANDATORY:
-            pe = PartialEvaluator(f, wm, [lambda node, t=t, val=val: (t if isinstance(node, ast.Name) and node.id == tagp else
-                                                                     (val if isinstance(node, ast.Name) and node.id == contp else NOVALUE))])
-            line = pe.eval(ev[0].args[0])
-            if not isinstance(line, str):
-                raise AnalysisError('C18.R5', q_tp, 'tag-pair line is not a constant template of tag and content')
-            lines.append(line + '\n')
-        got = fold_parse_board(repo, 'C18.R5', lines)
-        ok = got[0] == 'ok' and got[1] == {t: val for t in MANDATORY}
-        if not ok and first_bad is None:
-            first_bad = (val, got)
-    chk.evals(n)
-    chk.require(first_bad is None, 'C18.R5', w_tp, q_tp, 'writer tag-pair lines through parse_board',
-                f'the 15 tag-pair lines are read back verbatim for all {n} sample values over the property\'s alphabet',
-                f'value {first_bad[0]!r}: the 15 written tag lines are read back as {first_bad[1]}' if first_bad else '')
+    try:
+        structural()
+    except AnalysisError as e_s:
+        if chk.findings:
+            raise
+        chk.note(f'C18: structural rules not evaluated completely ({e_s.rule} at {e_s.anchor}: {e_s.why[:160]}); the verdict rests on the whole-file rule C18.R6 '
+                 f'(complete reader / writer folded on file layouts and board sequences) and the rules evaluated before')
